@@ -245,6 +245,23 @@ func runShard(bin string, p *propCfg, tier string, seed int64, shard, nshards in
 		outB, _ := os.ReadFile(outPath)
 		out := string(outB)
 		if timedOut {
+			// A build with the race detector has no deadlock detector: a case
+			// that hangs there is put to the referee, the same case in a child
+			// without the race detector, where the runtime itself decides.
+			if raceLog != "" && last.I >= 0 {
+				if crash, ok := deadlockReferee(p, tier, seed, shard, nshards, last.I); ok {
+					if len(crash) > 6000 {
+						crash = crash[:6000] + "\n…"
+					}
+					res.viols = append(res.viols, violation{
+						Key: "crash/deadlock/" + subjectOf(last.Label), Label: last.Label, Index: last.I,
+						Msg:    "fatal error: all goroutines are asleep - deadlock! (the race-detector build hung at this case until the watchdog; the same case without the race detector ends in the runtime's deadlock report)",
+						Detail: last.Detail, Crash: crash,
+					})
+					res.restarts++
+					return res
+				}
+			}
 			res.inconcl = append(res.inconcl, fmt.Sprintf("watchdog (%v) fired in shard %d at case %q; goroutine dump in %s", limit, shard, last.Label, outPath))
 			return res
 		}
@@ -273,6 +290,48 @@ func runShard(bin string, p *propCfg, tier string, seed int64, shard, nshards in
 		}
 		from = last.I + 1
 	}
+}
+
+var (
+	refereeOnce sync.Once
+	refereeBin  string
+)
+
+// deadlockReferee runs case i of a race phase in a child built without the
+// race detector and reports whether the Go runtime ended it with its
+// "all goroutines are asleep" report. The verdict is the runtime's, not a
+// clock's: the bound on the run only ends a referee that does not decide.
+func deadlockReferee(p *propCfg, tier string, seed int64, shard, nshards, i int) (string, bool) {
+	refereeOnce.Do(func() {
+		if b, err := buildChild(false); err == nil {
+			refereeBin = b
+		}
+	})
+	if refereeBin == "" {
+		return "", false
+	}
+	logPath := filepath.Join(workDir, "logs", fmt.Sprintf("%s-%s-s%d-referee%d.jsonl", p.ID, tier, shard, i))
+	defer os.Remove(logPath)
+	cmd := exec.Command(refereeBin, "-prop", p.ID, "-tier", tier, "-seed", strconv.FormatInt(seed, 10),
+		"-shard", strconv.Itoa(shard), "-nshards", strconv.Itoa(nshards),
+		"-from", strconv.Itoa(i), "-to", strconv.Itoa(i+1), "-log", logPath)
+	cmd.Dir = verifDir
+	e := env()
+	if childTmp != "" {
+		e = append(e, "TMPDIR="+childTmp)
+	}
+	cmd.Env = e
+	var buf strings.Builder
+	cmd.Stdout = &buf
+	cmd.Stderr = &buf
+	if cmd.Start() != nil {
+		return "", false
+	}
+	timer := time.AfterFunc(time.Duration(p.watchdog(tier))*time.Second, func() { cmd.Process.Kill() })
+	cmd.Wait()
+	timer.Stop()
+	kind, _ := classifyCrash(buf.String())
+	return buf.String(), kind == "deadlock"
 }
 
 // subjectOf returns the first two path elements of a case label.
